@@ -527,10 +527,20 @@ def planted(S):
             dp = [abs(p[2] - op[0][2]) for p in xp]
             if any(b < a - 1e-12 for a, b in zip(dp, dp[1:])):
                 prob.append("X-points not ordered by |psi-psi_axis|: %s" % [round(x, 5) for x in dp])
+        # maxits is a limit PER candidate point: a budget that is ample for each one (Newton from the
+        # nearest node needs 3-4 steps here) gives the same answer as a large one, however many
+        # candidates were refined before
+        try:
+            op2, xp2 = critical.find_critical(R2, Z2, psi(R2, Z2), 1e-12, 8)
+            same = len(op2) == len(op) and len(xp2) == len(xp) and all(abs(a[0] - b[0]) + abs(a[1] - b[1]) < 1e-9 for a, b in zip(list(op) + list(xp), list(op2) + list(xp2)))
+            if not same:
+                prob.append("maxits=8 (ample per point) finds %d O / %d X points, maxits=100 finds %d / %d" % (len(op2), len(xp2), len(op), len(xp)))
+        except Exception as e:
+            prob.append("maxits=8: raised %r" % e)
         if prob:
             bad.append(dict(case=dict(sign=sign, n=nres, z_offset=zoff, k=k), problems=prob[:4]))
     S.bounded.append(dict(name="find_critical on planted critical points", evaluations=n_eval, distinct_nontrivial=len(classes),
-                          rule="three Gaussian lobes with random sub-grid centres; psi sign +-; resolutions 65, 97; Z-domain symmetric / offset up / offset down; every O-point returned exactly once, returned points have |Bp|^2<1e-6 and the class of the analytic Hessian determinant, primary O nearest the domain centre, X-points ordered by |psi-psi_axis|; distinct = (sign, resolution, offset?)",
+                          rule="three Gaussian lobes with random sub-grid centres; psi sign +-; resolutions 65, 97; Z-domain symmetric / offset up / offset down; every O-point returned exactly once, returned points have |Bp|^2<1e-6 and the class of the analytic Hessian determinant, primary O nearest the domain centre, X-points ordered by |psi-psi_axis|; the same result with maxits=8 as with maxits=100 (limit per candidate); distinct = (sign, resolution, offset?)",
                           bound="%d random equilibria" % len(cases), samples=[dict(sign=1.0, n=65, z_offset=0.35)], failures=bad[:4], wall_s=round(time.time() - t0, 1)))  # fmt: skip
     if bad:
         S.static_vc("bounded:planted-critical-points", FN, "found once / classified / ordered as the analytic reference", False, detail=repr(bad[:2])[:1200], kind="bounded-native", model=bad[0])
